@@ -94,7 +94,7 @@ def run(rep, f, c, rule='R-ENCCOST'):
                     for ev in p.events:
                         if ev[0] == 'cond':
                             cond, lab = ev[1], ev[2]
-                            pr = r_entrycost.pred(cond, lab)
+                            pr = r_entrycost.pred(cond, lab, b, ev[3])
                             if pr is not None:
                                 state[(pr[0], pr[1])] = pr[2]
                                 continue
